@@ -411,6 +411,8 @@ struct Obs {
     /// C13: what the connection still holds once the stream has been finished and everything has settled
     /// (IDs in use through the accessor; routing-table keys from the last driver snapshot), None = not observed
     leak: Option<Value>,
+    /// the adapter chain came from adapter_chain_tail() of another stream
+    used_chain: bool,
 }
 
 fn item_json(re: &ResultEntry) -> Value {
@@ -568,6 +570,52 @@ fn scope_of(par: &Value) -> Scope {
     }
 }
 
+/// The adapter chain of `env`, but not a fresh one: it is what `adapter_chain_tail()` hands out from another stream (on a
+/// connection of its own) that has been running for a while - the EntriesOnly in it has collected reference URIs, the
+/// PagedResults has saved a handle and parameters. A stream started with such a chain must behave exactly like one started
+/// with fresh adapters (the adapters' `start()` reset their state; the documentation shows it).
+async fn used_chain(env: &Value) -> Option<Vec<Ad>> {
+    let io = MockIo::new();
+    let (conn, mut ldap) = LdapConnAsync::verif_from_io(Box::new(io.clone()));
+    let drv = tokio::spawn(async move {
+        let _ = conn.drive().await;
+    });
+    let warm = json!([{"t": "e", "id": 71, "ctl": [], "nu": 0}, {"t": "r", "id": 72, "ctl": [], "nu": 2}, {"t": "e", "id": 73, "ctl": [], "nu": 0}]);
+    let mut fut = Box::pin(ldap.streaming_search_with(chain_of(env), "dc=warm", Scope::Subtree, "(objectClass=*)", vec!["cn".to_string()]));
+    let mut st = None;
+    for _ in 0..200 {
+        if let Poll::Ready(r) = futures::poll!(fut.as_mut()) {
+            st = r.ok();
+            break;
+        }
+        quiesce(&io, &drv).await;
+    }
+    drop(fut);
+    let mut st = st?;
+    // the server answers the first request with an entry, a reference and another entry (no final result yet)
+    let (msgs, _) = ber::split_messages(&io.take_written());
+    let msgid = msgs.first().map(|m| ber::uint_of(&m.0.kids[0].val)).unwrap_or(1);
+    for it in warm.as_array().unwrap() {
+        io.push_bytes(&item_bytes(msgid, it));
+    }
+    for _ in 0..2 {
+        let mut f = Box::pin(st.next());
+        for _ in 0..200 {
+            if let Poll::Ready(_) = futures::poll!(f.as_mut()) {
+                break;
+            }
+            quiesce(&io, &drv).await;
+        }
+    }
+    let chain = st.adapter_chain_tail().await;
+    let _ = st.finish().await;
+    drop(st);
+    drop(ldap);
+    io.push(Item::Eof);
+    quiesce(&io, &drv).await;
+    Some(chain)
+}
+
 /// Execute one behaviour; observations go to `obs` (so that they survive a panic of the code under test).
 fn execute(env: &Value, calls: &[String], seed: u64, chunking: u8, obs: &Rc<RefCell<Obs>>) -> Result<(), String> {
     let obs2 = obs.clone();
@@ -629,7 +677,19 @@ fn execute(env: &Value, calls: &[String], seed: u64, chunking: u8, obs: &Rc<RefC
                 return;
             }
             obs.borrow_mut().in_call = Some("start".into());
-            let started = drive(ldap.streaming_search_with(chain_of(env), base, scope_of(par), filter, attrs), &mut srv, &io, &drv, &obs, &ck).await;
+            // one behaviour in three runs with a chain that has been in use elsewhere
+            let chain = if !env["chain"].as_array().unwrap().is_empty() && seed % 3 == 0 {
+                match used_chain(env).await {
+                    Some(c) => {
+                        obs.borrow_mut().used_chain = true;
+                        c
+                    }
+                    None => chain_of(env),
+                }
+            } else {
+                chain_of(env)
+            };
+            let started = drive(ldap.streaming_search_with(chain, base, scope_of(par), filter, attrs), &mut srv, &io, &drv, &obs, &ck).await;
             let mut st = match started {
                 None => {
                     hang(&obs);
@@ -1064,6 +1124,9 @@ fn replay(path: &str, report: &str) {
         let panic = r.err();
         let o = obs.borrow();
         rep.count("vectors");
+        if o.used_chain {
+            rep.count("chain-from-adapter_chain_tail");
+        }
         count_behaviour(&mut rep, env, &calls, exp_outs, exp_reqs);
         for e in &o.errs {
             rep.count(&format!("impl-error:{}", e));
@@ -1303,9 +1366,9 @@ fn classify(input: &str, report: &str) {
         let rec = &v["rec"];
         let env = &rec["env"];
         let calls = strs(&rec["calls"]);
-        let act = Obs { outs: rec["outs"].as_array().unwrap().clone(), reqs: rec["reqs"].as_array().unwrap().clone(), errs: vec![], in_call: None, leak: None };
+        let act = Obs { outs: rec["outs"].as_array().unwrap().clone(), reqs: rec["reqs"].as_array().unwrap().clone(), errs: vec![], in_call: None, leak: None, used_chain: false };
         let panic = act.outs.last().and_then(|o| if o["x"]["k"] == "panic" { Some(o["x"]["msg"].as_str().unwrap_or("").to_string()) } else { None });
-        let mut act2 = Obs { outs: act.outs.clone(), reqs: act.reqs.clone(), errs: vec![], in_call: None, leak: None };
+        let mut act2 = Obs { outs: act.outs.clone(), reqs: act.reqs.clone(), errs: vec![], in_call: None, leak: None, used_chain: false };
         if panic.is_some() {
             act2.outs.pop();
         }
